@@ -3,6 +3,8 @@
 package vm
 
 import (
+	"path/filepath"
+
 	ros "github.com/risor-io/risor/os"
 )
 
@@ -12,12 +14,34 @@ import (
 type recOS struct {
 	*ros.VirtualOS
 	calls []string
-	args  []string // "Method:arg|arg" for the string parameters of each call
+	args  []string   // unused
+	argv  [][]string // {method, string args...} of each call
 }
 
 func (o *recOS) got(entry string) bool {
 	for _, c := range o.args {
 		if c == entry {
+			return true
+		}
+	}
+	return false
+}
+
+// gotPaths: was method called with these path arguments, up to lexical
+// normalisation (a builtin may clean a path before handing it to the OS)?
+func (o *recOS) gotPaths(method string, paths []string) bool {
+	for _, c := range o.argv {
+		if c[0] != method || len(c)-1 != len(paths) {
+			continue
+		}
+		same := true
+		for i, want := range paths {
+			got := c[i+1]
+			if got != want && (want == "" || filepath.Clean(got) != filepath.Clean(want)) {
+				same = false
+			}
+		}
+		if same {
 			return true
 		}
 	}
@@ -35,234 +59,234 @@ func (o *recOS) used(name string) bool {
 
 func (o *recOS) Args() []string {
 	o.calls = append(o.calls, "Args")
-	o.args = append(o.args, "Args:")
+	o.argv = append(o.argv, []string{"Args"})
 	return o.VirtualOS.Args()
 }
 
 func (o *recOS) Chdir(dir string) error {
 	o.calls = append(o.calls, "Chdir")
-	o.args = append(o.args, "Chdir:"+dir)
+	o.argv = append(o.argv, []string{"Chdir", dir})
 	return o.VirtualOS.Chdir(dir)
 }
 
 func (o *recOS) Create(name string) (ros.File, error) {
 	o.calls = append(o.calls, "Create")
-	o.args = append(o.args, "Create:"+name)
+	o.argv = append(o.argv, []string{"Create", name})
 	return o.VirtualOS.Create(name)
 }
 
 func (o *recOS) Environ() []string {
 	o.calls = append(o.calls, "Environ")
-	o.args = append(o.args, "Environ:")
+	o.argv = append(o.argv, []string{"Environ"})
 	return o.VirtualOS.Environ()
 }
 
 func (o *recOS) Exit(code int) {
 	o.calls = append(o.calls, "Exit")
-	o.args = append(o.args, "Exit:")
+	o.argv = append(o.argv, []string{"Exit"})
 	o.VirtualOS.Exit(code)
 }
 
 func (o *recOS) Getenv(key string) string {
 	o.calls = append(o.calls, "Getenv")
-	o.args = append(o.args, "Getenv:"+key)
+	o.argv = append(o.argv, []string{"Getenv", key})
 	return o.VirtualOS.Getenv(key)
 }
 
 func (o *recOS) Getpid() int {
 	o.calls = append(o.calls, "Getpid")
-	o.args = append(o.args, "Getpid:")
+	o.argv = append(o.argv, []string{"Getpid"})
 	return o.VirtualOS.Getpid()
 }
 
 func (o *recOS) Getuid() int {
 	o.calls = append(o.calls, "Getuid")
-	o.args = append(o.args, "Getuid:")
+	o.argv = append(o.argv, []string{"Getuid"})
 	return o.VirtualOS.Getuid()
 }
 
 func (o *recOS) Getwd() (string, error) {
 	o.calls = append(o.calls, "Getwd")
-	o.args = append(o.args, "Getwd:")
+	o.argv = append(o.argv, []string{"Getwd"})
 	return o.VirtualOS.Getwd()
 }
 
 func (o *recOS) Hostname() (string, error) {
 	o.calls = append(o.calls, "Hostname")
-	o.args = append(o.args, "Hostname:")
+	o.argv = append(o.argv, []string{"Hostname"})
 	return o.VirtualOS.Hostname()
 }
 
 func (o *recOS) LookupEnv(key string) (string, bool) {
 	o.calls = append(o.calls, "LookupEnv")
-	o.args = append(o.args, "LookupEnv:"+key)
+	o.argv = append(o.argv, []string{"LookupEnv", key})
 	return o.VirtualOS.LookupEnv(key)
 }
 
 func (o *recOS) Mkdir(name string, perm ros.FileMode) error {
 	o.calls = append(o.calls, "Mkdir")
-	o.args = append(o.args, "Mkdir:"+name)
+	o.argv = append(o.argv, []string{"Mkdir", name})
 	return o.VirtualOS.Mkdir(name, perm)
 }
 
 func (o *recOS) MkdirAll(path string, perm ros.FileMode) error {
 	o.calls = append(o.calls, "MkdirAll")
-	o.args = append(o.args, "MkdirAll:"+path)
+	o.argv = append(o.argv, []string{"MkdirAll", path})
 	return o.VirtualOS.MkdirAll(path, perm)
 }
 
 func (o *recOS) MkdirTemp(dir, pattern string) (string, error) {
 	o.calls = append(o.calls, "MkdirTemp")
-	o.args = append(o.args, "MkdirTemp:"+dir+"|"+pattern)
+	o.argv = append(o.argv, []string{"MkdirTemp", dir, pattern})
 	return o.VirtualOS.MkdirTemp(dir, pattern)
 }
 
 func (o *recOS) Open(name string) (ros.File, error) {
 	o.calls = append(o.calls, "Open")
-	o.args = append(o.args, "Open:"+name)
+	o.argv = append(o.argv, []string{"Open", name})
 	return o.VirtualOS.Open(name)
 }
 
 func (o *recOS) OpenFile(name string, flag int, perm ros.FileMode) (ros.File, error) {
 	o.calls = append(o.calls, "OpenFile")
-	o.args = append(o.args, "OpenFile:"+name)
+	o.argv = append(o.argv, []string{"OpenFile", name})
 	return o.VirtualOS.OpenFile(name, flag, perm)
 }
 
 func (o *recOS) ReadFile(name string) ([]byte, error) {
 	o.calls = append(o.calls, "ReadFile")
-	o.args = append(o.args, "ReadFile:"+name)
+	o.argv = append(o.argv, []string{"ReadFile", name})
 	return o.VirtualOS.ReadFile(name)
 }
 
 func (o *recOS) Remove(name string) error {
 	o.calls = append(o.calls, "Remove")
-	o.args = append(o.args, "Remove:"+name)
+	o.argv = append(o.argv, []string{"Remove", name})
 	return o.VirtualOS.Remove(name)
 }
 
 func (o *recOS) RemoveAll(path string) error {
 	o.calls = append(o.calls, "RemoveAll")
-	o.args = append(o.args, "RemoveAll:"+path)
+	o.argv = append(o.argv, []string{"RemoveAll", path})
 	return o.VirtualOS.RemoveAll(path)
 }
 
 func (o *recOS) Rename(oldpath, newpath string) error {
 	o.calls = append(o.calls, "Rename")
-	o.args = append(o.args, "Rename:"+oldpath+"|"+newpath)
+	o.argv = append(o.argv, []string{"Rename", oldpath, newpath})
 	return o.VirtualOS.Rename(oldpath, newpath)
 }
 
 func (o *recOS) Setenv(key, value string) error {
 	o.calls = append(o.calls, "Setenv")
-	o.args = append(o.args, "Setenv:"+key+"|"+value)
+	o.argv = append(o.argv, []string{"Setenv", key, value})
 	return o.VirtualOS.Setenv(key, value)
 }
 
 func (o *recOS) Stat(name string) (ros.FileInfo, error) {
 	o.calls = append(o.calls, "Stat")
-	o.args = append(o.args, "Stat:"+name)
+	o.argv = append(o.argv, []string{"Stat", name})
 	return o.VirtualOS.Stat(name)
 }
 
 func (o *recOS) Symlink(oldname, newname string) error {
 	o.calls = append(o.calls, "Symlink")
-	o.args = append(o.args, "Symlink:"+oldname+"|"+newname)
+	o.argv = append(o.argv, []string{"Symlink", oldname, newname})
 	return o.VirtualOS.Symlink(oldname, newname)
 }
 
 func (o *recOS) TempDir() string {
 	o.calls = append(o.calls, "TempDir")
-	o.args = append(o.args, "TempDir:")
+	o.argv = append(o.argv, []string{"TempDir"})
 	return o.VirtualOS.TempDir()
 }
 
 func (o *recOS) Unsetenv(key string) error {
 	o.calls = append(o.calls, "Unsetenv")
-	o.args = append(o.args, "Unsetenv:"+key)
+	o.argv = append(o.argv, []string{"Unsetenv", key})
 	return o.VirtualOS.Unsetenv(key)
 }
 
 func (o *recOS) UserCacheDir() (string, error) {
 	o.calls = append(o.calls, "UserCacheDir")
-	o.args = append(o.args, "UserCacheDir:")
+	o.argv = append(o.argv, []string{"UserCacheDir"})
 	return o.VirtualOS.UserCacheDir()
 }
 
 func (o *recOS) UserConfigDir() (string, error) {
 	o.calls = append(o.calls, "UserConfigDir")
-	o.args = append(o.args, "UserConfigDir:")
+	o.argv = append(o.argv, []string{"UserConfigDir"})
 	return o.VirtualOS.UserConfigDir()
 }
 
 func (o *recOS) UserHomeDir() (string, error) {
 	o.calls = append(o.calls, "UserHomeDir")
-	o.args = append(o.args, "UserHomeDir:")
+	o.argv = append(o.argv, []string{"UserHomeDir"})
 	return o.VirtualOS.UserHomeDir()
 }
 
 func (o *recOS) WriteFile(name string, data []byte, perm ros.FileMode) error {
 	o.calls = append(o.calls, "WriteFile")
-	o.args = append(o.args, "WriteFile:"+name)
+	o.argv = append(o.argv, []string{"WriteFile", name})
 	return o.VirtualOS.WriteFile(name, data, perm)
 }
 
 func (o *recOS) ReadDir(name string) ([]ros.DirEntry, error) {
 	o.calls = append(o.calls, "ReadDir")
-	o.args = append(o.args, "ReadDir:"+name)
+	o.argv = append(o.argv, []string{"ReadDir", name})
 	return o.VirtualOS.ReadDir(name)
 }
 
 func (o *recOS) WalkDir(root string, fn ros.WalkDirFunc) error {
 	o.calls = append(o.calls, "WalkDir")
-	o.args = append(o.args, "WalkDir:"+root)
+	o.argv = append(o.argv, []string{"WalkDir", root})
 	return o.VirtualOS.WalkDir(root, fn)
 }
 
 func (o *recOS) Stdin() ros.File {
 	o.calls = append(o.calls, "Stdin")
-	o.args = append(o.args, "Stdin:")
+	o.argv = append(o.argv, []string{"Stdin"})
 	return o.VirtualOS.Stdin()
 }
 
 func (o *recOS) Stdout() ros.File {
 	o.calls = append(o.calls, "Stdout")
-	o.args = append(o.args, "Stdout:")
+	o.argv = append(o.argv, []string{"Stdout"})
 	return o.VirtualOS.Stdout()
 }
 
 func (o *recOS) Stderr() ros.File {
 	o.calls = append(o.calls, "Stderr")
-	o.args = append(o.args, "Stderr:")
+	o.argv = append(o.argv, []string{"Stderr"})
 	return o.VirtualOS.Stderr()
 }
 
 func (o *recOS) CurrentUser() (ros.User, error) {
 	o.calls = append(o.calls, "CurrentUser")
-	o.args = append(o.args, "CurrentUser:")
+	o.argv = append(o.argv, []string{"CurrentUser"})
 	return o.VirtualOS.CurrentUser()
 }
 
 func (o *recOS) LookupUser(name string) (ros.User, error) {
 	o.calls = append(o.calls, "LookupUser")
-	o.args = append(o.args, "LookupUser:"+name)
+	o.argv = append(o.argv, []string{"LookupUser", name})
 	return o.VirtualOS.LookupUser(name)
 }
 
 func (o *recOS) LookupUid(uid string) (ros.User, error) {
 	o.calls = append(o.calls, "LookupUid")
-	o.args = append(o.args, "LookupUid:"+uid)
+	o.argv = append(o.argv, []string{"LookupUid", uid})
 	return o.VirtualOS.LookupUid(uid)
 }
 
 func (o *recOS) LookupGroup(name string) (ros.Group, error) {
 	o.calls = append(o.calls, "LookupGroup")
-	o.args = append(o.args, "LookupGroup:"+name)
+	o.argv = append(o.argv, []string{"LookupGroup", name})
 	return o.VirtualOS.LookupGroup(name)
 }
 
 func (o *recOS) LookupGid(gid string) (ros.Group, error) {
 	o.calls = append(o.calls, "LookupGid")
-	o.args = append(o.args, "LookupGid:"+gid)
+	o.argv = append(o.argv, []string{"LookupGid", gid})
 	return o.VirtualOS.LookupGid(gid)
 }
